@@ -95,8 +95,25 @@ def showEvent (d : Dict) : Event Rat → String
   | .decode m w s a => s!"dec:{showKey d m}:{showRats w}:{showVec s}:{showVec a}"
   | .sub s a => s!"sub:{showVec s}:{showVec a}"
 
+/-- group key of an event: the object it goes to (objects are named by their matrix) -/
+def eventKey (d : Dict) : Event Rat → String
+  | .ctor m .. => showKey d m
+  | .update m _ => showKey d m
+  | .decode m .. => showKey d m
+  | .sub .. => "s"
+
+/-- stable insertion by key: keeps the program order of the events of one object, forgets
+    the interleaving of independent objects (which carries no information: any data
+    dependency shows in the recorded values) -/
+def insertByKey (k : String) (e : String) : List (String × String) → List (String × String)
+  | [] => [(k, e)]
+  | (k', e') :: rest => if k < k' then (k, e) :: (k', e') :: rest else (k', e') :: insertByKey k e rest
+
 def showEvents (d : Dict) (ev : List (Event Rat)) : String :=
-  if ev.isEmpty then "-" else ";".intercalate (ev.map (showEvent d))
+  if ev.isEmpty then "-"
+  else
+    let sorted := ev.foldl (fun acc e => insertByKey (eventKey d e) (showEvent d e) acc) []
+    ";".intercalate (sorted.map (·.2))
 
 def showCall (d : Dict) (ev : List (Event Rat)) (r : Except DecErr Vec) : String :=
   showEvents d ev ++ "=>" ++ (match r with
